@@ -205,6 +205,19 @@ def r12_7(facts, res):
         if uncond:
             res.add(Finding("R12-7", ty, "%s answers Some(..) unconditionally: a node of this kind that was removed from its document still "
                             "reports the document as parent" % f["path"], f["file"], f["line"], {}))
+    # kinds that may also be children of the document (and of the document type): the answer must not be restricted to elements
+    for ty in ("XmlProcessingInstruction", "XmlComment", "XmlElement"):
+        f = facts.fn_opt("xml_dom::<%s as Node>::parent_node" % ty)
+        if f is None or "body" not in f:
+            continue
+        st["instances"] += 1
+        narrow = sorted({m["m"] for m in walk(f["body"]) if m.get("k") == "MethodCall" and m["m"] in ("as_element", "as_attribute", "as_document")})
+        for c in [x for x in facts.fns.values() if x.get("parent") == f["path"] and "body" in x]:
+            narrow += sorted({m["m"] for m in walk(c["body"]) if m.get("k") == "MethodCall" and m["m"] in ("as_element", "as_attribute", "as_document")})
+        res.oblige(1, not narrow)
+        if narrow:
+            res.add(Finding("R12-7", ty + "|narrowed", "%s keeps the parent only when it is of one kind (%s): a node of this kind directly under the "
+                            "document reports no parent although the document lists it" % (f["path"], ", ".join(narrow)), f["file"], f["line"], {}))
     if st["instances"] < 6:
         raise BrokenCheck("R12-7: %d parent_node implementations of child kinds (floor 6)" % st["instances"])
 
